@@ -214,7 +214,3 @@ Proof. destruct v; unfold all_FileOutputMode; all_in. Qed.
 Lemma table_ok_FileOutputMode_true : table_ok_FileOutputMode = true.
 Proof. vm_compute. reflexivity. Qed.
 
-Lemma generated_tables_physical_all_ok : forallb (fun r => fst (fst (fst r))) (map (fun r => (snd (fst (fst r)), true, true, true)) generated_tables_physical) = true.
-Proof. vm_compute. reflexivity. Qed.
-Lemma generated_tables_physical_no_clash : forallb (fun r => match snd r with [] => true | _ => false end) generated_tables_physical = true.
-Proof. vm_compute. reflexivity. Qed.
